@@ -1362,10 +1362,13 @@ class Worker:
         self.schemas = {}
         self.catalogs = {}
         self.server = None
+        self.warm = set()
 
     def schema(self, sid):
         if sid not in self.schemas:
-            self.schemas[sid] = load_schema(self.rt, self.cache, sid, self.spec['schemas'][sid])
+            # mode D never builds a schema (its objects would get counter UUIDs): the driver pre-builds them
+            self.schemas[sid] = load_schema(self.rt, self.cache, sid, self.spec['schemas'][sid],
+                                            build=not _DET['on'])
             self.catalogs[sid] = build_catalog(self.rt, self.schemas[sid])
         return self.schemas[sid], self.catalogs[sid]
 
@@ -1565,6 +1568,30 @@ class Worker:
         out['sqllen'] = sum(len(u['sql']) for u in o)
         return out
 
+    WARMUP = ['select 1', "select <str>$0 ++ 'x'", 'select {1, 2} union {3}', 'for x in {1, 2} union (x + 1)',
+              "select schema::ObjectType {name, pointers: {name} order by .name limit 2} filter .name = 'x' limit 1",
+              'select (group schema::ObjectType by .abstract) {key: {abstract}, n := count(.elements)}',
+              'select count(schema::Object) + len(<str>(global default::__nope ?? 1)) if false else 0']
+
+    def warm_up(self, sid, mode):
+        """mode D: pay the first-compilation costs (lazy tables, caches) once in the parent, with a FIXED list of
+        statements, so that every forked compilation starts from the same warm state"""
+        key = (sid, mode)
+        if key in self.warm:
+            return
+        self.warm.add(key)
+        schema, catalog = self.schema(sid)
+        if mode == 's':
+            self.server_compiler()
+        for q in self.WARMUP:
+            try:
+                if mode == 's':
+                    self.compile_server(schema, q)
+                else:
+                    self.compile_tree(schema, q, mode)
+            except Exception:   # noqa
+                pass
+
     def run_line_forked(self, line):
         """mode D: each of the two compilations runs in its own fork of this process, which has loaded the
         schemas but never compiled anything: both start from the same interpreter state (no history)"""
@@ -1572,9 +1599,7 @@ class Worker:
         parts = line.split(' ')
         if len(parts) != 4 or parts[0] != 'Q' or parts[1] not in self.spec['schemas']:
             return {'st': 'bad-line'}
-        self.schema(parts[1])
-        if parts[2] == 's':
-            self.server_compiler()
+        self.warm_up(parts[1], parts[2])
         limit = float(os.environ.get('C13_CASE_TIMEOUT', '90'))
         outs = []
         for k in range(2):
@@ -1751,8 +1776,16 @@ def main():
     if len(sys.argv) > 3 and sys.argv[2] == '--build-schemas':
         spec = json.load(open(sys.argv[3]))
         rt = setup(repo)
+        import glob
         for sid, s in spec['schemas'].items():
             load_schema(rt, spec['cache'], sid, s)
+            keep = schema_pickle_path(rt, spec['cache'], sid, s)
+            for old in glob.glob(os.path.join(spec['cache'], f'schema-{sid}-*.pickle')):
+                if old != keep:          # built for another std-schema key / SDL text
+                    try:
+                        os.remove(old)
+                    except OSError:
+                        pass
         if spec.get('server'):
             rt['vrt'].reflection_schema()
         print('ok')
